@@ -141,7 +141,8 @@ def bundle_decisions_by_index(base_path, decisions):
         else:
             # Removerange or addrange will have common_path
             # on list and key only in the diff entries
-            keys = set(e.key for e in chain(d.local_diff, d.remote_diff, d.get("custom_diff", ())))
+            # (a one-sided decision has None as the other side's diff)
+            keys = set(e.key for e in chain(d.local_diff or (), d.remote_diff or (), d.get("custom_diff", ())))
             assert len(keys) == 1
             key, = keys
         decisions_by_index[key].append(d)
